@@ -50,4 +50,10 @@ def replay (outputs : Items) : List (List String × V × Bool) → Items
       | .ok o => replay o rest
       | .error _ => replay outputs rest
 
+/-- the emissions whose `out` call returned, with the flag it returned, in call order -/
+def accepted : List (List String × V) → List (Except Err Bool) → List (List String × V × Bool)
+  | (path, v) :: ems, .ok d :: rs => (path, v, d) :: accepted ems rs
+  | _ :: ems, .error _ :: rs => accepted ems rs
+  | _, _ => []
+
 end Ports
